@@ -437,7 +437,7 @@ def r6_tables(ctx):
     ok = ok and isinstance(t, ast.Call) and ast.unparse(t.func) == 'all' and len(t.args) == 1 and \
         isinstance(t.args[0], (ast.GeneratorExp, ast.ListComp)) and ast.unparse(t.args[0].generators[0].iter) == rv and \
         not t.args[0].generators[0].ifs and \
-        ast.unparse(t.args[0].elt).replace(' ', '') == f'{t.args[0].generators[0].target.id}[{imp}]>0'
+        ast.unparse(t.args[0].elt).replace(' ', '') == f'0<{t.args[0].generators[0].target.id}[{imp}]'
     ctx.check('R6.tables', f'{s} lower boundary', ok, key(f, 'lower-boundary'),
               'the (0 impairment, 0 penalty) row is not added exactly when every given boundary is positive')
     ctx.need('R6.tables', 5)
